@@ -88,28 +88,18 @@ def optimize(expr):
 
             elif op == Operator.MUL:
                 expr = WList(list(map(optimize, expr)), line_info=expr.line_info)
-                if any(arg == 0 for arg in expr[1:]):
-                    expr = 0
                 if all(isinstance(arg, (int, float)) for arg in expr[1:]):
                     expr = prod(expr[1:])
 
+            # && and || are only folded if every operand is a literal, any other
+            # operand must still be evaluated (side effects, short-circuiting)
             elif op == Operator.AND:
-                # (&& x) => x
-                if len(expr) == 2:
-                    expr = expr[1]
-                elif any(not arg for arg in expr[1:]):
-                    expr = False
-                elif all(isinstance(arg, (int, float, str)) and arg != 0 for arg in expr[1:]):
-                    expr = True
+                if len(expr) > 1 and all(isinstance(arg, (int, float, str)) for arg in expr[1:]):
+                    expr = all(bool(arg) for arg in expr[1:])
 
             elif op == Operator.OR:
-                # (|| x) => x
-                if len(expr) == 2:
-                    expr = expr[1]
-                elif any(isinstance(arg, (int, float, str)) and arg != 0 for arg in expr[1:]):
-                    expr = True
-                elif all(not arg for arg in expr[1:]):
-                    expr = False
+                if len(expr) > 1 and all(isinstance(arg, (int, float, str)) for arg in expr[1:]):
+                    expr = any(bool(arg) for arg in expr[1:])
             else:
                 expr = WList(list(map(optimize, expr)), line_info=expr.line_info)
 
